@@ -2,6 +2,7 @@
 From Coq Require Import List Arith Reals Lra.
 Import ListNotations.
 From SymfcV Require Import Tuples Group Concrete IPS EigModel LabelMatrix.
+From SymfcG Require Import IndepGen.
 Open Scope R_scope.
 
 (** C_trans: every translation class has exactly n_lp distinct members (free action), each carrying the
@@ -62,3 +63,8 @@ Theorem c09_uniform_label_matrix (A : Type) (lab : A -> option nat) (E : list A)
   (c <> c' -> rsuml A (fun e => entry_const A lab n e c * entry_const A lab n e c') E = 0).
 Proof. intros Hn Hc. split; [exact (uniform_columns_unit A lab E n c Hc Hn) | exact (uniform_columns_orthogonal A lab E n c c')]. Qed.
 Print Assumptions c09_uniform_label_matrix.
+
+(** the builders of C_trans put exactly one entry 1/sqrt(n_lp) in every row, at the column given by the decompression
+    indices (whole-function match, regenerated) *)
+Theorem c09_c_trans_in_force : c_trans_is_constant_label_matrix = true.
+Proof. reflexivity. Qed.
